@@ -130,7 +130,8 @@ def compare(author, student, tol, exact_floats=True):
       shape : exactly one side is an empty sum and the other is an array (comparison of the number 0
               with an array: nothing stated) -- caller decides; 'shape-zero' when that array is all zeros.
       open  : the difference is inside the guard band around the tolerance, or the tolerance is
-              effectively zero and the floating-point evaluation is not exact.
+              effectively zero and the floating-point evaluation is not exact (then only differences
+              beyond 1e-7 are judged; with exact terms the band is the rounding noise of the summation).
     """
     if author is None and student is None:
         return 'correct'
@@ -148,6 +149,16 @@ def compare(author, student, tol, exact_floats=True):
     if thr < 1e-10:
         if d == 0.0:
             return 'correct' if exact_floats else 'open'
+        if exact_floats:
+            # every term is exact in binary floating point (small integers, powers of two), so the evaluated sums
+            # carry only the rounding of a few dozen operations: a true difference a thousand times larger than
+            # that is decisive even against a zero tolerance
+            noise = 1e-13 * (1.0 + fnorm(author) + fnorm(student))
+            if d >= thr * 1.01 + noise:
+                return 'incorrect'
+            if d <= thr * 0.99 - noise:
+                return 'correct'
+            return 'open'
         return 'incorrect' if d > 1e-7 else 'open'
     if d <= thr * 0.99 - 1e-11:
         return 'correct'
